@@ -129,6 +129,161 @@ def init_heap(st):
     """touch every field so that snapshots contain all arrays"""
     for f, fd in CLUSTER_SCHEMA.items():
         parts = {"intlist": [("set", SetSort), ("dupfree", B)], "intset": [("set", SetSort)], "bool": [("v", B)], "int": [("v", I)],
-                 "optint": [("isnone", B), ("v", I)], "optset": [("isnone", B), ("set", SetSort)]}[fd.kind]
+                 "optint": [("isnone", B), ("v", I)], "optset": [("isnone", B), ("set", SetSort)], "tok": [("v", I)], "const": []}[fd.kind]
         for p, srt in parts:
             _arr(st, "Cluster", f, p, srt)
+
+
+# ---------------------------------------------------------------------------------------------
+# tokens for fields the contracts only compare
+class RegionRef:
+    """value of Cluster._region: a LinkedUnitCollection (token) or None (-1)"""
+
+    BASIS = z3.Function("region_basis", I, SetSort)
+
+    def __init__(self, tok):
+        self.tok = tok
+
+    def _is_none(self):
+        return mkbool(self.tok == -1)
+
+    def _truth(self):
+        # LinkedUnitCollection is a dict: truthiness = non-empty (assumed non-empty for regions returned by get_region)
+        return mkbool(self.tok != -1)
+
+    def get_basis_indices(self):
+        return SymSet(RegionRef.BASIS(self.tok))
+
+
+class RadiiRef:
+    """value of Cluster._radii: the per-atom radii array used for the clustering (token) or None (-1)"""
+
+    def __init__(self, tok):
+        self.tok = tok
+
+    def _is_none(self):
+        return mkbool(self.tok == -1)
+
+    def _as_array(self):
+        return self
+
+    def _getitem(self, idx):
+        if isinstance(idx, SymList):
+            return RadiiSel(self.tok, idx)
+        raise Unsupported("radii[%r]" % (idx,))
+
+
+class RadiiSel:
+    """radii[indices]"""
+
+    def __init__(self, tok, indices):
+        self.tok = tok
+        self.indices = indices
+
+
+class ThrRef:
+    def __init__(self, tok):
+        self.tok = tok
+
+    def _is_none(self):
+        return mkbool(self.tok == -1)
+
+
+CLUSTER_SCHEMA["_region"] = Field("tok", RegionRef)
+CLUSTER_SCHEMA["_radii"] = Field("tok", RadiiRef)
+CLUSTER_SCHEMA["_bond_threshold"] = Field("tok", ThrRef)
+CLUSTER_SCHEMA["_system"] = Field("const", None)
+CLUSTER_SCHEMA["_distances"] = Field("const", None)
+CLUSTER_SCHEMA["_cell"] = Field("const", None)
+
+
+def CACHE_NONE(st, cid, hp=None):
+    a = hp[("Cluster", "_distance_matrix_radii_mic", "isnone")] if hp is not None else _arr(st, "Cluster", "_distance_matrix_radii_mic", "isnone", B)
+    return z3.Select(a, cid)
+
+
+def CACHE_SET(st, cid, hp=None):
+    a = hp[("Cluster", "_distance_matrix_radii_mic", "set")] if hp is not None else _arr(st, "Cluster", "_distance_matrix_radii_mic", "set", SetSort)
+    return z3.Select(a, cid)
+
+
+def TOK(st, field, cid, hp=None):
+    a = hp[("Cluster", field, "v")] if hp is not None else _arr(st, "Cluster", field, "v", I)
+    return z3.Select(a, cid)
+
+
+# ---- sub-matrix D[np.ix_(idx, idx)] -----------------------------------------------------------
+class IxShim:
+    def __init__(self, a, b):
+        self.a, self.b = a, b
+
+    def _ix_select(self, mat):
+        from engine.heap import OptSetToken
+
+        if self.a is not self.b and not (isinstance(self.a, SymList) and isinstance(self.b, SymList) and self.a.s.arr.eq(self.b.s.arr)):
+            raise Unsupported("np.ix_ with two different index lists")
+        return OptSetToken(z3.BoolVal(False), self.a.s.arr)
+
+
+def _ix(self, *others):
+    return IxShim(self, others[0] if others else self)
+
+
+SymList._ix = _ix
+
+# ---- geometry.get_clusters (DBSCAN groups) under contract: A-SK -----------------------------------
+COMP = z3.Function("is_largest_bonded_component", SetSort, SetSort, B)  # COMP(T, S): T is a largest connected component of the bonding graph on S
+
+
+class GroupsShim:
+    """result of matid.geometry.get_clusters(submatrix of index list L): a partition of the positions of L into the connected
+    components of the graph {D <= threshold} (A-SK, and the contract of geometry.get_clusters proved under C09)"""
+
+    def __init__(self, lst_set):
+        self.src = lst_set
+
+    def _max(self, key):
+        return PositionsShim(self.src)
+
+    def _len(self):
+        n = SR(cur().fresh_int("ngroups"))
+        cur().assume(n.t >= 1)
+        return n
+
+
+class PositionsShim:
+    """a largest group: non-empty, duplicate-free set of positions of the source list"""
+
+    def __init__(self, src):
+        self.src = src
+
+    def _select_positions(self, index_array):
+        return SelShim(index_array.lst, self)
+
+
+class SelShim:
+    def __init__(self, lst, pos):
+        self.lst = lst
+        self.pos = pos
+
+    def tolist(self):
+        st = cur()
+        T = fresh_set(st, "component")
+        x = z3.Int("x!comp")
+        st.assume(T.subset_of(self.lst.s))
+        st.assume(z3.Exists([x], T.mem(x)))
+        st.assume(COMP(T.arr, self.lst.s.arr))
+        return SymList(T, self.lst.dupfree, None)
+
+
+def get_clusters_contract(it, st, bound, site):
+    """geometry.get_clusters(dist_matrix, threshold, min_samples): raises on an empty matrix (A-SK), else the groups"""
+    from engine.heap import OptSetToken
+
+    mtx = bound["dist_matrix"]
+    if not isinstance(mtx, OptSetToken):
+        raise Unsupported("get_clusters on %r" % type(mtx))
+    x = z3.Int("x!gc")
+    if not st.fork(z3.Exists([x], z3.Select(mtx.set, x))):
+        raise ValueError("Found array with 0 sample(s)")
+    return GroupsShim(mtx.set)
